@@ -23,6 +23,7 @@ from harness.lib import CaseFile, F, coq_bool, qlit, qlist
 
 MODEL_TARGETS = ["gen/HxDispatch.vo", "gen/Scalar.vo", "model/HX.vo"]
 USES_REALS = True
+COQCHK = False   # props/C20.v depends on Interval (two refutation witnesses): coqchk would re-check Interval + Flocq + Coquelicot, > 30 min
 # axioms beyond the four real-number/classical ones: the primitive 63-bit integers (declared by Coq's standard library, used by the
 # Interval tactic's big-number arithmetic in the two refutation witnesses) -- exactly what Print Assumptions reports
 _P63 = ["tail0", "subcarryc", "subc", "sub", "mulc", "mul", "mod", "lxor", "ltb", "lsr", "lsl", "lor", "leb", "land", "int", "head0", "eqb",
@@ -45,7 +46,8 @@ ASSUMPTIONS = ["floats are modelled as exact reals: IEEE rounding of the impleme
                "HX_NTU_Numerical is rendered as a fuel-indexed Fixpoint after its AST was matched against the expected secant-loop shape; "
                "its run is not sample-validated (only its postcondition is checked on the implementation)",
                "HeatExchangerTypes is a plain Enum (checked by the translator): a member never equals its text"]
-TRUSTED = ["Coq Interval tactic (samples, refutation witnesses), Coquelicot (mean-value theorem for the LMTD upper bound)",
+TRUSTED = ["Coq Interval tactic (samples, refutation witnesses), Coquelicot (mean-value theorem for the LMTD upper bound and for parallel <= counter flow)",
+           "coqchk is not run for C20 (thorough tier): re-checking the Interval/Flocq/Coquelicot libraries it depends on exceeds the 30-minute budget (measured: > 1800 s); the theorems are checked by coqc only",
            "sys.settrace line tracing to observe the branch taken by the running implementation"]
 HDR = ("From OP Require Import gen.Consts gen.HxDispatch model.Base model.HX.\nRequire Import Coq.QArith.QArith Coq.Strings.String.\n"
        "Local Open Scope Q_scope.")
